@@ -106,7 +106,7 @@ def r1_chains(ctx):
     if fn is None:
         r.missing("init_subcontext_with_options")
     else:
-        body, env = chains.fn_env(ast, fn)
+        body, env = chains.fn_env(ast, fn, keep=("init_context_inner",))
         callee, args, env2 = _tail_call(body, env)
         memo = None
         if callee == "init_context_inner" and len(args) == 2:
